@@ -247,3 +247,66 @@ func vh_C09_rebound() {
 	vC04AtRest(env, "rebound")
 	vReach("rebound")
 }
+
+// vh_C09_hidden: what the optimised self call may assume about the body.
+// (a) closures that capture the activation's variables are created where the
+// body text shows no fn/defn - by a macro - and are
+// called after later iterations ran: the program must behave like the one
+// with the fn written out (run in a twin interpreter).  (b) a def that runs
+// in some iterations only and shadows a global: the other iterations see the
+// global (reference evaluator: a fresh frame per activation).
+func vh_C09_hidden() {
+	vFormatOpaque(true)
+	env := vEvalEnv(0)
+	twin := vEvalEnvs[1]
+	w := vC09Wrappers[vChoice("wrap", len(vC09Wrappers))]
+	n := vInt64("n")
+	vAssume(n >= 0 && n <= 3)
+	acc := vSmallInt("acc")
+	core := `(cond (<= n 0) acc (f (- n 1) (+ acc (t n))))`
+	if vChoice("kind", 2) == 0 {
+		maker := []string{`(thunk (+ loc n))`, `(mk2)`}[vChoice("maker", 2)]
+		prog := func(mk string) string {
+			return `(defmac thunk [x] ^(fn [] ~x)) (defmac mk2 [] ^(fn [] (+ loc n))) (def fs []) (defn f [n acc] (def loc (* n 10)) (set fs (append fs ` + mk + `)) ` + vReplace(w, "E", core) + `)
+				(def r (f 9001 9002)) (def sum 0)
+				(for [(def i 0) (< i (len fs)) (set i (+ i 1))] (set sum (+ (* sum 100) (t ((aget fs i))))))
+				(list r sum (len fs))`
+		}
+		run := func(e *Zlisp, src string) (Sexp, error, bool) {
+			var res Sexp
+			var err error
+			p := false
+			for _, f := range vT(e, src, &SexpInt{Val: n}, acc) {
+				res, err, p = vEval(e, f)
+				if err != nil || p {
+					break
+				}
+			}
+			return res, err, p
+		}
+		want, errW, pW := run(twin, prog(`(fn [] (+ loc n))`))
+		traceW := append([]int64(nil), vTraceLog...)
+		vTraceLog = nil
+		got, err, p := run(env, prog(maker))
+		vAssert(!p && !pW, "hidden-closure-no-panic")
+		if p || pW {
+			return
+		}
+		vAssert((err == nil) == (errW == nil), "hidden-closure-same-errorness-as-written-out-fn")
+		if err == nil && errW == nil {
+			vAssert(vSexpEq(got, want), "hidden-closure-same-value-as-written-out-fn")
+			vAssert(len(vTraceLog) == len(traceW), "hidden-closure-same-effects")
+		}
+		vReach("hidden-closure")
+		return
+	}
+	// (b) conditional local definition
+	body := []string{
+		`(cond (== n 2) (def q 99) 0) (cond (<= n 0) (+ acc q) (f (- n 1) (+ acc (* q (t n)))))`,
+		`(cond (== n 1) (def acc 0) 0) (cond (<= n 0) (+ acc q) (f (- n 1) (+ acc (t n))))`,
+		`(cond (> n 1) (let [] (def q 7) 0) 0) (cond (<= n 0) q (f (- n 1) (+ acc q)))`,
+	}[vChoice("body", 3)]
+	forms := vT(env, `(def q 5) (defn f [n acc] `+body+`) (list (f 9001 9002) q)`, &SexpInt{Val: n}, acc)
+	vDiff(env, forms, "conditional-def")
+	vReach("conditional-def")
+}
